@@ -13,21 +13,21 @@ def lvl(text, ref):
 CHECKS = {
  "C01": ("Generated-history search over every primitive/flavour with a structural oracle (wait queue == alive waiting futures, by address) after every op; panics are violations; thorough adds ASan fuzzing and Miri on samples. Exploration-level: finds dangling/duplicated/missing queue entries within the explored histories, fixpoint for small configurations.", "4/C01"),
  "C02": ("Generated-history search on the mutex (3 lock flavours x fairness) with guard-count / is_locked / protected-value oracle; enumeration to a joint-state fixpoint for small k.", "4/C02"),
- "C03": ("Generated-history search with the no-lost-wake-up invariant evaluated after every op (free mutex + pending => woken through the latest waker); enumeration fixpoint for small k; thorough adds task programs run to quiescence.", "4/C03"),
+ "C03": ("Generated-history search with the no-lost-wake-up invariant evaluated after every op (free mutex + pending => woken through the latest waker); enumeration fixpoint for small k; polls racing with the guard drop of another thread (between two critical sections of one poll); thorough adds task programs run to quiescence.", "4/C03"),
  "C04": ("Every acquisition in fair mode is checked against the harness-side arrival order; random + exhaustive small configurations.", "4/C04"),
  "C05": ("Permit ledger oracle over borrowed/shared, fair/unfair semaphores, checked after every op; random + exhaustive (totals bounded).", "4/C05"),
- "C06": ("The statement's invariant (no unconsumed wake-up => head request does not fit) evaluated after every op; found and fixed two real defects (D1a, D1b); random + exhaustive.", "4/C06"),
+ "C06": ("The statement's invariant (no unconsumed wake-up => head request does not fit) evaluated after every op; found and fixed two real defects (D1a, D1b); random + exhaustive; polls racing with a release() of another thread.", "4/C06"),
  "C07": ("Every completion with n>0 on a fair semaphore is checked against the arrival order; zero requests must complete at once.", "4/C07"),
  "C08": ("Per-value life line with drop-counting payloads checked after every op and at teardown over all buffer kinds, capacities 0..3, borrowed/shared.", "4/C08"),
  "C09": ("FIFO order of send effects, capacity bound and rendezvous (capacity 0) checked on every receive / accepted send.", "4/C09"),
  "C10": ("Wake-up invariants (A) receivers, (B) senders, (C) after close, evaluated after every op with harness-side availability that errs on the small side.", "4/C10"),
  "C11": ("Closedness model (explicit close, last sender / last receiver handle) with exact prediction of every report of 'closed', for mpmc, oneshot, oneshot-broadcast and state broadcast; found and fixed D3.", "4/C11"),
- "C12": ("Open|Sent|Closed model with exact prediction of every send/receive result and clone/drop ledger for oneshot and oneshot-broadcast, borrowed and shared.", "4/C12"),
- "C13": ("Publication-log model with exact prediction of every receive/try_receive result, id monotonicity through the public Ord, no-stranding invariant.", "4/C13"),
- "C14": ("Per-waiter latch model with exact prediction of every poll result; set wakes all through latest wakers, reset wakes nobody.", "4/C14"),
+ "C12": ("Open|Sent|Closed model with exact prediction of every send/receive result and clone/drop ledger for oneshot and oneshot-broadcast, borrowed and shared; a second thread polling / dropping the woken future inside the window after the unlock, and polls racing with a send().", "4/C12"),
+ "C13": ("Publication-log model with exact prediction of every receive/try_receive result, id monotonicity through the public Ord, no-stranding invariant; polls racing with a send() of another thread.", "4/C13"),
+ "C14": ("Per-waiter latch model with exact prediction of every poll result; set wakes all through latest wakers, reset wakes nobody; polls racing with a set() of another thread.", "4/C14"),
  "C15": ("Sorted-multiset reference model with exact prediction of poll results, wake sets, wake order and next_expiration, clock over the whole u64 range.", "4/C15"),
  "C17": ("is_terminated compared with the harness flag after every op in every world; poll-after-completion probe must panic; stream protocol checked as a receiver.", "4/C17"),
- "C18": ("Counting global allocator armed only inside library calls in every history of every world.", "4/C18"),
+ "C18": ("Counting global allocator armed only inside library calls in every history of every world (mpmc also with capacity 12 and nine buffered values).", "4/C18"),
 }
 m = {
  "version": 1,
